@@ -1,8 +1,13 @@
-/- Driver for C08 (stub). -/
-import ControlModel.Basic
+/- Driver for C08 (monitor + Spec.C08 on the observed trace). -/
+import Driver.EnvCommon
+import ControlModel.Spec.C08
 
 namespace Driver.C08
+open EnvM Driver.EnvCommon
 
-def processLine (_line : String) : String := "UNIMPLEMENTED\t0\t-"
+def processLine (line : String) : String :=
+  processWith (fun i tr =>
+    let ok := specC08 i.hooks i.reqs tr
+    (ok, if !ok && !noLaterSameMomentAwait i.hooks then "await_weight_not_visited" else "-")) line
 
 end Driver.C08
